@@ -4,7 +4,7 @@
 //! manual polling with a no-op waker: poll until Pending, open one of the
 //! gates that are currently registered and alive, poll again, ...  A schedule
 //! is the list of gate registration numbers in opening order.
-//! `c05 <seed> <n trees> <out> [maxgates] [cap]`.
+//! `c05 <seed> <n trees> <out> [maxgates] [cap per tree] [max lines]`.
 use std::collections::{BTreeSet, HashMap, HashSet};
 use std::fmt::Write as _;
 use std::future::Future;
@@ -428,6 +428,7 @@ fn main() {
     let a = parse_args();
     let maxg: usize = a.rest.first().and_then(|s| s.parse().ok()).unwrap_or(5);
     let cap: usize = a.rest.get(1).and_then(|s| s.parse().ok()).unwrap_or(130);
+    let max_lines: usize = a.rest.get(2).and_then(|s| s.parse().ok()).unwrap_or(1200);
     let mut rng = Rng::new(a.seed);
     let mut out = String::new();
     let mut it = Interner::new();
@@ -487,7 +488,7 @@ fn main() {
     let mut attempts = 0usize;
     let mut lines = 0usize;
     let mut stats = (0usize, 0usize, 0usize); // exhaustive trees, sampled trees, schedules
-    while tree_no < a.n && attempts < a.n * 40 + 100 {
+    while tree_no < a.n && lines < max_lines && attempts < a.n * 40 + 100 {
         attempts += 1;
         let (text, nodes, fixed_gates): (String, Nodes, Option<Vec<String>>) = if let Some((doc, patches, gates)) = corpus_iter.next() {
             let mut nodes: Nodes = vec![
@@ -502,7 +503,7 @@ fn main() {
             }
             (doc.to_string(), nodes, Some(gates.iter().map(|s| s.to_string()).collect()))
         } else {
-            let fault_pm = [0usize, 60, 120, 200][rng.below(4)];
+            let fault_pm = [0usize, 25, 50, 100, 160][rng.below(5)];
             let nodes = gen_world(&mut rng.fork(), fault_pm);
             let mut dg = DocGen { r: rng.fork(), frags: vec![], dup: rng.chance(1, 3) };
             let text = dg.document(rng.chance(1, 3));
@@ -537,14 +538,35 @@ fn main() {
         let gates: Vec<String> = match fixed_gates {
             Some(g) => g,
             None => {
-                let k = (1 + rng.below(maxg)).min(cands.len());
-                let anchor = rng.pick(&cands).clone();
-                let pre = parent(&anchor).to_string();
-                let mut near: Vec<String> = cands.iter().filter(|c| parent(c) == pre || (c.starts_with(&anchor) && c.len() > anchor.len())).cloned().collect();
-                let mut far: Vec<String> = cands.iter().filter(|c| !near.contains(c)).cloned().collect();
+                let k = (if rng.chance(1, 5) { 1 + rng.below(2) } else { 3 + rng.below(maxg.saturating_sub(2).max(1)) }).min(cands.len());
+                // prefer a group of siblings (same parent path) with several members, then what lies beneath them
+                let mut groups: Vec<(String, usize)> = vec![];
+                for c in &cands {
+                    let p = parent(c).to_string();
+                    match groups.iter_mut().find(|g| g.0 == p) {
+                        Some(g) => g.1 += 1,
+                        None => groups.push((p, 1)),
+                    }
+                }
+                let is_mut = text.starts_with("mutation");
+                let big: Vec<&(String, usize)> = groups.iter().filter(|g| g.1 >= 2 && !(is_mut && g.0.is_empty())).collect();
+                let pre = if !big.is_empty() && !rng.chance(1, 6) { rng.pick(&big).0.clone() } else { rng.pick(&groups).0.clone() };
+                let mut near: Vec<String> = cands.iter().filter(|c| parent(c) == pre).cloned().collect();
+                let mut below: Vec<String> = cands.iter().filter(|c| !near.contains(c) && near.iter().any(|a| c.starts_with(&format!("{a}/")))).cloned().collect();
+                let mut far: Vec<String> = cands.iter().filter(|c| !near.contains(c) && !below.contains(c)).cloned().collect();
                 rng.shuffle(&mut near);
+                rng.shuffle(&mut below);
                 rng.shuffle(&mut far);
-                near.extend(far);
+                if rng.chance(1, 2) {
+                    // mix the levels
+                    below.extend(far);
+                    rng.shuffle(&mut below);
+                    near.truncate(2 + rng.below(3));
+                    near.extend(below);
+                } else {
+                    near.extend(below);
+                    near.extend(far);
+                }
                 near.truncate(k);
                 near
             }
